@@ -173,13 +173,15 @@ Qed.
 (* ---------- catalog rows: sys_pages ---------- *)
 Definition pt_row (e : string * N) : row := [VStr (fst e); VInt (Z.of_N (snd e))].
 Definition enc_pte (e : string * N) : bytes := encode_row_direct pageTableSchema (pt_row e).
-Definition pt_fits (e : string * N) : Prop := row_fits pageTableSchema (pt_row e) = true.
+(* a catalog row that round-trips and is within the cell size limit *)
+Definition pt_fits (e : string * N) : Prop :=
+  row_fits pageTableSchema (pt_row e) = true /\ (length (enc_pte e) <= MV)%nat.
 
 Definition pt_tuple (e : string * N) : tuple :=
   [("table_name"%string, VStr (fst e)); ("file_offset"%string, VInt (Z.of_N (snd e)))].
 
 Lemma decode_pte e : pt_fits e -> decode_tuple pageTableSchema (enc_pte e) [] = Ok (pt_tuple e).
-Proof. intros H. unfold enc_pte. rewrite (decode_tuple_enc _ _ H). reflexivity. Qed.
+Proof. intros [H _]. unfold enc_pte. rewrite (decode_tuple_enc _ _ H). reflexivity. Qed.
 
 Lemma encode_pt_tuple e : encode_tuple pageTableSchema (pt_tuple e) = Ok (enc_pte e).
 Proof. reflexivity. Qed.
@@ -195,10 +197,17 @@ Proof.
   assert (String.length s <= 400)%nat by (change MV with 400%nat in H; lia). lia.
 Qed.
 
+Lemma enc_pte_length n o o' : length (enc_pte (n, o)) = length (enc_pte (n, o')).
+Proof.
+  unfold enc_pte, pt_row. cbn [fst snd encode_row_direct pageTableSchema fd_type enc_value].
+  rewrite !app_length, !le_enc_length. reflexivity.
+Qed.
+
 Lemma pt_fits_intro n o :
   (length (enc_pte (n, o)) <= MV)%nat -> o < 9223372036854775808 -> pt_fits (n, o).
 Proof.
-  intros Hlen Ho. unfold pt_fits, pt_row. cbn [fst snd row_fits pageTableSchema fd_type value_fits].
+  intros Hlen Ho. split; [|exact Hlen].
+  unfold pt_row. cbn [fst snd row_fits pageTableSchema fd_type value_fits].
   rewrite andb_true_r. apply andb_true_iff. split.
   - unfold enc_pte, pt_row in Hlen. cbn [fst snd encode_row_direct pageTableSchema fd_type enc_value] in Hlen.
     eapply (str_len_bound n (enc_bool false ++ le_enc 4 _)). rewrite <- !app_assoc. rewrite <- !app_assoc in Hlen. exact Hlen.
@@ -207,15 +216,17 @@ Qed.
 
 Lemma pt_fits_offset n o o' : pt_fits (n, o) -> o' < 9223372036854775808 -> pt_fits (n, o').
 Proof.
-  unfold pt_fits, pt_row. cbn [fst snd row_fits pageTableSchema fd_type value_fits].
-  rewrite !andb_true_r. intros H Ho. apply andb_true_iff in H as [A _]. rewrite A. cbn [andb].
+  intros [H L] Ho. split; [|rewrite (enc_pte_length n o' o); exact L].
+  unfold pt_row in *. cbn [fst snd row_fits pageTableSchema fd_type value_fits] in *.
+  rewrite !andb_true_r in *. apply andb_true_iff in H as [A _]. rewrite A. cbn [andb].
   unfold int64_ok. apply andb_true_iff. split; apply Z.leb_le; lia.
 Qed.
 
-Lemma enc_pte_length n o o' : length (enc_pte (n, o)) = length (enc_pte (n, o')).
+Lemma pt_fits_bound n o : pt_fits (n, o) -> o < 9223372036854775808.
 Proof.
-  unfold enc_pte, pt_row. cbn [fst snd encode_row_direct pageTableSchema fd_type enc_value].
-  rewrite !app_length, !le_enc_length. reflexivity.
+  intros [H _]. unfold pt_row in H. cbn [fst snd row_fits pageTableSchema fd_type value_fits] in H.
+  rewrite andb_true_r in H. apply andb_true_iff in H as [_ H]. unfold int64_ok in H.
+  apply andb_true_iff in H as [_ H]. apply Z.leb_le in H. lia.
 Qed.
 
 (* ---------- catalog rows: sys_schema ---------- *)
